@@ -2311,7 +2311,7 @@ def _chan(v):
     return v.f[0]
 
 
-@model("fibre::spsc::BoundedAsyncSender::try_send", "fibre::mpmc_v2::AsyncSender::try_send")
+@model("fibre::spsc::BoundedAsyncSender::try_send", "fibre::mpmc_v2::AsyncSender::try_send", "fibre::mpsc::BoundedAsyncSender::try_send")
 def _chan_try_send(it, args, dty, func):
     ch = _chan(args[0])
     if ch.closed:
@@ -2332,7 +2332,7 @@ def _chan_try_recv(it, args, dty, func):
 
 # awaited channel operations (sequential semantics): the future is Ready when the operation can take effect at
 # the moment it is polled and Pending otherwise; a pending send future owns its item until it is polled Ready
-@model("fibre::spsc::BoundedAsyncSender::send", "fibre::mpmc_v2::AsyncSender::send")
+@model("fibre::spsc::BoundedAsyncSender::send", "fibre::mpmc_v2::AsyncSender::send", "fibre::mpsc::BoundedAsyncSender::send")
 def _chan_send_fut(it, args, dty, func):
     return Agg("{chan.sendfut}", [_chan(args[0]), args[1], False])
 
@@ -2342,7 +2342,7 @@ def _chan_recv_fut(it, args, dty, func):
     return Agg("{chan.recvfut}", [_chan(args[0])])
 
 
-@trait_model(r"^fibre::(spsc|mpmc_v2)::(SendFuture|RecvFuture|ReceiveFuture)", "Future", "poll")
+@trait_model(r"^fibre::(spsc|mpmc_v2|mpsc)::(Bounded)?(SendFuture|RecvFuture|ReceiveFuture)", "Future", "poll")
 def _chan_fut_poll(it, args, dty, func):
     fut = _deref(args[0])
     if not isinstance(fut, Agg) or fut.ty not in ("{chan.sendfut}", "{chan.recvfut}"):
@@ -2366,7 +2366,7 @@ def _chan_fut_poll(it, args, dty, func):
     return Enum("std::task::Poll", 1, "Pending", [])
 
 
-@trait_model(r"^fibre::(spsc|mpmc_v2)::(SendFuture|RecvFuture|ReceiveFuture)", "IntoFuture", "into_future")
+@trait_model(r"^fibre::(spsc|mpmc_v2|mpsc)::(Bounded)?(SendFuture|RecvFuture|ReceiveFuture)", "IntoFuture", "into_future")
 def _chan_fut_into(it, args, dty, func):
     return args[0]
 
